@@ -515,6 +515,30 @@ func Run(r *mon.Run) {
 				exec(r, e, &Case{Patterns: set, Extra: extra, URLPath: pre + q.Path[1:], Req: q})
 			}
 		}
+		// the prefix repeated, and extra leading segments spelled with the
+		// prefix's own characters: below the mount these are other paths
+		// (e.g. /api/api/v1/echo is /api/v1/echo for the bare mux), nothing is
+		// to be stripped twice or as a character set
+		for pre := range prefixes {
+			if pre == "" {
+				continue
+			}
+			segs := strings.Split(strings.TrimPrefix(pre, "/"), "/")
+			first := segs[0]
+			var inner []string
+			inner = append(inner, pre, "/"+first[:1], "/"+first[len(first)-1:])
+			if len(first) > 1 {
+				inner = append(inner, "/"+first[1:], "/"+first[:1]+"/"+first[1:])
+			}
+			for _, in := range inner {
+				for _, q := range reqs {
+					if !r.Thorough() && rng.Intn(6) != 0 {
+						continue
+					}
+					exec(r, e, &Case{Patterns: set, Extra: extra, URLPath: pre + in + q.Path, Req: q})
+				}
+			}
+		}
 		if !prefixes[""] {
 			// the bare routes themselves are outside every prefix when "/"
 			// is not mounted: they must not be served either
